@@ -90,6 +90,15 @@ where
                         Poll::Pending => return Poll::Pending,
                         Poll::Ready(Err(_)) | Poll::Ready(Ok(0)) => return Poll::Ready(None), // EOF
                         Poll::Ready(Ok(read)) => {
+                            #[cfg(feature = "verif")]
+                            {
+                                if read == chunk_size {
+                                    crate::verif::probe("rx_read_filled_buffer");
+                                }
+                                if *size + read < 2 {
+                                    crate::verif::probe("rx_less_than_header");
+                                }
+                            }
                             *size += read;
                             *state = PacketStreamState::ReadPacketLen;
                         }
@@ -125,6 +134,10 @@ where
 
                     *size -= packet.len();
                     *state = PacketStreamState::ReadPacketLen;
+                    #[cfg(feature = "verif")]
+                    if *size != 0 {
+                        crate::verif::probe("rx_bytes_buffered_after_packet");
+                    }
 
                     return Poll::Ready(Some(RxPacket::try_decode(
                         buf.split_to(mem::replace(&mut packet.end, 0)).freeze(),
